@@ -11,17 +11,18 @@ import common
 from common import Run, model
 import bookgen, bookrun
 
-RULE = ('random single-book workbooks with 2-3 sheets, names, array formulas and (some) a whole-column reference, written to '
+RULE = ('random workbooks of one or two books (the second book has a sheet of the same name as the first, with a different used area) with 2-3 sheets, names, array formulas and (some) a whole-column reference, written to '
         '.xlsx; output sets = random non-empty sets of 1-3 cells / rectangles (thorough: also every single populated cell). '
         'Non-trivial = an output is a formula cell depending on another sheet, a name or a range; distinct = distinct '
         '(workbook, output set).')
 
 
-def spill_inside(case):
-    return bool(case.get('inside_spill'))
+def cross_book_name(case):
+    """a formula refers to a defined name of another workbook (resolved to #REF! when its own book is compiled first)"""
+    return bool(case.get('cross_book_name')) and '#REF!' in case.get('what', '')
 
 
-SIGNATURES = {}
+SIGNATURES = {'cross_book_name': cross_book_name}
 
 
 def new_run():
@@ -45,7 +46,7 @@ def check(run):
     req, pend = [], []
     try:
         for k in range(n):
-            wb = bookgen.generate(rnd, n_books=1, n_sheets=rnd.choice([2, 3]), whole_col=(k % 12 == 5))
+            wb = bookgen.generate(rnd, n_books=rnd.choice([1, 2]), n_sheets=rnd.choice([2, 3]), whole_col=(k % 12 == 5))
             dd = os.path.join(tmp, 'w%d' % k)
             os.makedirs(dd)
             os.chdir(dd)
@@ -59,6 +60,8 @@ def check(run):
                 continue
             base = bookrun.solution_values(wb, fsol)
             case0 = {'workbook': {k_: (str(v) if isinstance(v, bookgen.Err) else v) for k_, v in wb.to_dict().items()}}
+            case0['cross_book_name'] = any(kk == 'name' and wb.names[x][0] != wb.sheets[a_[0]][0]
+                                           for a_, ct in wb.cells.items() if ct[0] != 'v' for kk, x in wb.deps(ct[-1]))
             addrs = [a for a in wb.addresses()]
             spill = {}
             for (s, r, c), cont in wb.cells.items():
@@ -147,6 +150,29 @@ def check(run):
     finally:
         os.chdir(cwd)
         shutil.rmtree(tmp, ignore_errors=True)
+    # known finding: a defined name of another workbook
+    wd = tempfile.mkdtemp(prefix='verif_c15w_')
+    try:
+        import openpyxl
+        from openpyxl.workbook.defined_name import DefinedName
+        os.chdir(wd)
+        b1 = openpyxl.Workbook(); w1 = b1.active; w1.title = 'S1'; w1['A1'] = 5
+        dn = DefinedName('MYNAME', attr_text='S1!$A$1')
+        try:
+            b1.defined_names['MYNAME'] = dn
+        except TypeError:
+            b1.defined_names.append(dn)
+        b1.save('b1.xlsx')
+        b2 = openpyxl.Workbook(); w2 = b2.active; w2.title = 'S1'; w2['B4'] = "='[b1.xlsx]'!MYNAME*2"
+        b2.save('b2.xlsx')
+        sol = bookrun.ExcelModel().from_ranges("'[b2.xlsx]S1'!B4").finish().calculate()
+        v = bookrun.wire_impl(np.asarray(sol["'[b2.xlsx]S1'!B4"].value, object)[0, 0])
+    except Exception as ex:
+        v = 'raised ' + type(ex).__name__
+    finally:
+        os.chdir(cwd)
+        shutil.rmtree(wd, ignore_errors=True)
+    run.replay_witness('cross-book-name', v == 'x#REF!', {'witness': "b2.xlsx S1!B4 = '[b1.xlsx]'!MYNAME*2, from_ranges(B4)", 'B4': v})
     answers = model(req)
     for ans, (wb, q, base, case) in zip(answers, pend):
         for a, mv in zip(q, ans.split(' ')):
